@@ -1033,7 +1033,11 @@ impl Iterator for InventoryIter {
                     if ftype.is_dir() {
                         let path = entry.path();
 
-                        if path.file_name().unwrap_or_default() == EXTENSIONS_DIR {
+                        // Only the storage root's extensions directory is reserved; an object may
+                        // be stored beneath a directory that happens to have the same name
+                        if path.file_name().unwrap_or_default() == EXTENSIONS_DIR
+                            && path.parent() == Some(self.root.as_path())
+                        {
                             continue;
                         }
 
